@@ -219,3 +219,80 @@ func checkErrorsPropagated(c *Ctx, p *Prog, pkg, rule string, extra ...errSwallo
 	}
 	c.Stats["error_tests_"+pkg] = n
 }
+
+// checkErrorsConsumed (errcheck-style, package-specific): every call in a store package
+// that returns an error has that error looked at (tested, returned, stored or passed on).
+// Deliberately unchecked by the code base, each confirmed by reading: Close/Rollback on
+// clean-up paths (their error cannot change the outcome already decided).
+func checkErrorsConsumed(c *Ctx, p *Prog, pkg, rule string) int {
+	errT := types.Universe.Lookup("error").Type()
+	allow := func(n string) (string, bool) {
+		switch {
+		case strings.HasSuffix(n, ").Close") || strings.HasSuffix(n, ".Close"):
+			return "Close on a clean-up path", true
+		case strings.HasSuffix(n, "Tx).Rollback"):
+			return "Rollback on a clean-up path (its error cannot change the failure being reported)", true
+		case strings.HasPrefix(n, "fmt.Fprint") || strings.HasPrefix(n, "fmt.Print"):
+			return "formatted output", true
+		case strings.HasSuffix(n, "Result.LastInsertId"):
+			return "database/sql.Result.LastInsertId fails only for drivers without the feature; the bundled SQLite driver supports it (the statement's own error was checked just before)", true
+		case strings.Contains(n, "hash.Hash") || strings.Contains(n, "Hash32.Write") || strings.Contains(n, "Hash64.Write"):
+			return "hash.Hash.Write never fails", true
+		}
+		return "", false
+	}
+	n := 0
+	for _, f := range p.FuncsIn(pkg) {
+		ord := 0
+		for _, b := range f.Blocks {
+			for _, in := range b.Instrs {
+				call, ok := in.(*ssa.Call)
+				if !ok {
+					continue
+				}
+				sig := call.Common().Signature()
+				if sig == nil || sig.Results().Len() == 0 {
+					continue
+				}
+				last := sig.Results().Len() - 1
+				if !types.Identical(sig.Results().At(last).Type(), errT) {
+					continue
+				}
+				ord++
+				n++
+				used := false
+				if sig.Results().Len() == 1 {
+					for _, ref := range *call.Referrers() {
+						if _, dbg := ref.(*ssa.DebugRef); !dbg {
+							used = true
+						}
+					}
+				} else {
+					for _, ref := range *call.Referrers() {
+						if ex, ok := ref.(*ssa.Extract); ok && ex.Index == last {
+							for _, r2 := range *ex.Referrers() {
+								if _, dbg := r2.(*ssa.DebugRef); !dbg {
+									used = true
+								}
+							}
+						}
+					}
+				}
+				if used {
+					continue
+				}
+				name := calleeName(call.Common())
+				if name == "" {
+					name = "dynamic call"
+				}
+				construct := fmt.Sprintf("%s/unchecked-error#%d/%s", FuncDisplay(f), ord, shortCallee(name))
+				if why, ok := allow(name); ok {
+					c.Discharge(rule, construct, p.Pos(in.Pos()), "deliberately unchecked: "+why)
+				} else {
+					c.Violate(rule, construct, p.Pos(in.Pos()), "the error returned by "+name+" is never looked at: a failure of this call is reported as success", nil)
+				}
+			}
+		}
+	}
+	return n
+}
